@@ -11,7 +11,7 @@ func VerifConstants() map[string]int {
 		"slab16Size": slab16Size, "slab32Size": slab32Size,
 		"queryCacheMax": queryCacheMax, "mergerCacheMax": mergerCacheMax,
 		"maxContentLength": maxContentLength,
-		"ExitOk": ExitOk, "ExitNoMatch": ExitNoMatch, "ExitError": ExitError,
+		"ExitOk":           ExitOk, "ExitNoMatch": ExitNoMatch, "ExitError": ExitError,
 		"ExitBecome": ExitBecome, "ExitInterrupt": ExitInterrupt,
 	}
 }
